@@ -36,6 +36,7 @@ static void burst_schedule(long n)
   for (long i = 0; i < n; i++)
     runs[i].store(0);
   std::atomic<long> done(0), bad(0);
+  vr::CaseWatch watch(std::string(BACKEND) + "|schedule|burst", "schedule:" + std::to_string(n), 300);
   auto *r = runs.get();
   for (long i = 0; i < n; i++) {
     std::shared_ptr<std::vector<long>> heap = std::make_shared<std::vector<long>>(4, i);
@@ -66,6 +67,7 @@ static void burst_schedule(long n)
 
 static void burst_async(long n)
 {
+  vr::CaseWatch watch(std::string(BACKEND) + "|async|burst", "async:" + std::to_string(n), 120);
   std::vector<std::future<std::string>> f;
   for (long i = 0; i < n; i++)
     f.push_back(async([i]() { return std::string(20, 'x') + std::to_string(i); }));
@@ -86,6 +88,7 @@ static void burst_async(long n)
 static void burst_asynctask(long n)
 {
   long wrong = 0;
+  vr::CaseWatch watch(std::string(BACKEND) + "|AsyncTask|burst", "asynctask:" + std::to_string(n), 120);
   {
     std::vector<std::unique_ptr<AsyncTask<std::string>>> t;
     for (long i = 0; i < n; i++)
